@@ -10,14 +10,23 @@ proved of the *standard*: `Spec.TreeBuilder` run over the same derivation has, a
 current node whose start-tag namespace (`State.startTagNs`: HTML for HTML elements and integration points,
 else the element's namespace) is `expected` — for the sub-grammar in which
 
-* foreign elements and HTML elements inside integration points carry names the HTML tree builder does not
-  know (`Name.other`: `g`, `path`, `circle`, `mrow`, custom elements, …),
-* stand-alone HTML start tags inside integration points are void elements (`area br embed img keygen wbr`),
+* foreign elements carry any name the rules for foreign content push as it is (`PlainF`: not a breakout tag, not
+  `font`, not `annotation-xml`, not an integration point name of the namespace — `g`, `path`, `a`, `script`,
+  `style`, `textarea`, MathML `title`, … and every unknown name),
+* HTML elements inside integration points carry a name "in body" treats by "any other start / end tag" whatever
+  the state (`Name.isOrd`: unknown names, `span sub sup var ruby`, and the foreign names used as HTML names),
+* stand-alone HTML start tags inside integration points are start tags "in body" disposes of without touching the
+  stack (`voidLikeNames`: the void elements, the head-only elements, the start tags "in body" ignores, `html`, `body`),
 * integration points are named `desc title foreignObject` (SVG), `mi mo mn ms mtext` or
   `annotation-xml` with an HTML `encoding` (MathML), islands are rooted at `svg` / `math`.
 
+* the island is met in the insertion mode "in body" with nothing to reconstruct (`Base`) — *not* in a table mode:
+  `C03_tb_table_tag_in_ip`.
+
 Together: on that class simulator and standard agree tag by tag (`C03_tb_foreign_partial`). The four known
-deviations (F2, F11, F12, F28) and three new ones come out of the spec as concrete disagreeing sequences.
+deviations (F2, F11, F12, F28), three found in round 1 (F33, F34, unclosed element) and two found in round 2
+(`C03_tb_table_tag_in_ip`, `C03_tb_end_tag_walks_to_foreign_ancestor`) come out of the spec as concrete
+disagreeing sequences.
 -/
 namespace LolHtml.Thm.C03
 open LolHtml LolHtml.Model LolHtml.Spec.TreeBuilder LolHtml.Spec.Island
@@ -147,6 +156,36 @@ theorem C03_tb_unclosed_element_in_ip :
        fev bDesc .desc false false]).map (fun p => (p.1.1, p.2.1)) =
       [(.svg, .svg), (.html, .html), (.html, .html), (.svg, .html)] := by decide +kernel
 
+def bTable : Bytes := [116, 97, 98, 108, 101]
+def bTd : Bytes := [116, 100]
+def bA : Bytes := [97]
+
+/-- **New (round 2)** — `<table><svg><desc><td></td></desc>`: the island sits in a table insertion mode ("in table"
+here; the same in "in table body" / "in row" / "in cell", e.g. `<td><svg><foreignObject><td>`). Inside the
+integration point the `td` start tag is handed to the rules of the *insertion mode* (§13.2.6: the adjusted current
+node is an HTML integration point and the token is a start tag), and "in table" clears the stack back to the
+table: the island is gone. The simulator is still inside `desc` and, after `</desc>`, in SVG (where CDATA
+sections are allowed and `textarea` does not switch): `…</desc><![CDATA[><img src onerror=alert(1)>]]>` is text
+for lol-html and an `img` element for the standard. -/
+theorem C03_tb_table_tag_in_ip :
+    (nsJoint Gen.Tags.cfg cfgStd (Sim.new false) false State.init
+      [fev bTable .table true false, fev bSvg .svg true false, fev bDesc .desc true false, fev bTd .td true false,
+       fev bTd .td false false, fev bDesc .desc false false]).map (fun p => (p.1.1, p.2.1)) =
+      [(.html, .html), (.svg, .svg), (.html, .html), (.html, .html), (.html, .html), (.svg, .html)] := by decide +kernel
+
+/-- **New (round 2)** — `<svg><a><desc><a><a></a></a>`: the second HTML `a` start tag closes the first (adoption
+agency), so the last `</a>` finds the integration point `desc` as current node; an end tag there is handled by
+the rules for foreign content (§13.2.6.5 "any other end tag"), which walk down the stack to the SVG `a` and pop
+it together with `desc`. The simulator does not know element nesting and stays in the integration point: a
+following `<textarea>` switches lol-html to RCDATA while the standard goes on parsing markup. The same with any
+implicitly closed element and a like-named foreign ancestor (`<svg><x><desc><p><x><hr></x>`). -/
+theorem C03_tb_end_tag_walks_to_foreign_ancestor :
+    (nsJoint Gen.Tags.cfg cfgStd (Sim.new false) false State.init
+      [fev bSvg .svg true false, fev bA .a true false, fev bDesc .desc true false, fev bA .a true false,
+       fev bA .a true false, fev bA .a false false, fev bA .a false false]).map (fun p => (p.1.1, p.2.1)) =
+      [(.svg, .svg), (.svg, .svg), (.html, .html), (.html, .html), (.html, .html), (.html, .html), (.html, .svg)] := by
+  decide +kernel
+
 /-- (c) for the whole `Spec.Island` grammar: false — the `mglyph` island is well-formed in the sense of
 `Island.Ok` and simulator and standard disagree on it. -/
 def C03_tb_foreign_statement : Prop :=
@@ -173,6 +212,25 @@ theorem C03_tb_foreign_statement_false : ¬ C03_tb_foreign_statement := by
     ⟨⟨0 + 1 + 1, .html, .body, {}⟩, ⟨0, .html, .html, {}⟩, [], by decide +kernel, Or.inl rfl⟩
   revert this
   decide +kernel
+
+/-- non-vacuity of the round-2 widening: enumerated names as foreign elements and inside the integration point:
+`<svg><a><script></script></a><desc><span><meta><td></span></desc></svg>` after `<body>` -/
+example :
+    let i : Island := ⟨.svg, bSvg, [],
+      .elem bA [] (.elem [115, 99, 114, 105, 112, 116] [] .nil .nil) <|
+      .ip bDesc [] (.elem [115, 112, 97, 110] [] (.void [109, 101, 116, 97] [] false (.void bTd [] false .nil)) .nil) .nil⟩
+    FSOk Name.ofBytes (fun _ => {}) .svg i.children ∧
+    specNsTrace cfgStd afterBodyTag (i.flat.map (fun p => tokOf Name.ofBytes (fun _ => {}) p.1)) = i.flat.map (·.2) ∧
+    nsTrace Gen.Tags.cfg (Sim.new false) (i.flat.map (·.1)) = i.flat.map (·.2) := by
+  refine ⟨?_, ?_, ?_⟩
+  · simp only [FSOk, HSOk]
+    repeat' apply And.intro
+    all_goals first
+      | trivial
+      | decide +kernel
+      | exact Or.inl ⟨rfl, by decide +kernel⟩
+  · decide +kernel
+  · decide +kernel
 
 /-- non-vacuity of `C03_tb_foreign_partial`: `<svg><g><circle/></g><desc><x></x><br></desc></svg>` after `<body>` -/
 example :
